@@ -79,6 +79,7 @@ var lookalikes = []string{"localhost", "localhost", "localhost", "localhost", "l
 
 type genState struct {
 	m       *Model
+	motifs  int
 	synth   int
 	moved   int
 	nonceCt uint32
@@ -314,6 +315,16 @@ func genCaseFor(p Profile) func(t *rapid.T) Case {
 			sort.Slice(ks, func(i, j int) bool { return fmt.Sprint(ks[i]) < fmt.Sprint(ks[j]) })
 			return ks
 		}
+		satisfiedKeys := func() []pitKey {
+			var ks []pitKey
+			for k, e := range m.pit {
+				if e.satisfiedAt >= 0 && len(e.in) == 0 && len(e.out) == 0 {
+					ks = append(ks, k)
+				}
+			}
+			sort.Slice(ks, func(i, j int) bool { return fmt.Sprint(ks[i]) < fmt.Sprint(ks[j]) })
+			return ks
+		}
 		for _, r := range raws {
 			if m.tainted != "" {
 				break
@@ -334,6 +345,13 @@ func genCaseFor(p Profile) func(t *rapid.T) Case {
 					if r.D%5 == 0 {
 						op.CBP = !op.CBP
 					}
+				case how == 4 && len(satisfiedKeys()) > 0:
+					// the key of an entry that was satisfied and may still await the sweep: the
+					// Interest re-uses the entry (or finds none: the reference allows both)
+					sk := satisfiedKeys()
+					pk := sk[r.C%len(sk)]
+					op.N, op.CBP, op.MBF = pk.Name, pk.CBP, pk.MBF
+					hintKey = pk.Hint
 				case how < 6 && len(usedNames) > 0:
 					op.N = usedNames[r.C%len(usedNames)]
 					op.CBP, op.MBF = r.Bool1, r.Bool2 && r.D%3 == 0
@@ -446,6 +464,9 @@ func genCaseFor(p Profile) func(t *rapid.T) Case {
 				if op.HasNonce && !m.DefinitelyDead(op.N, op.Nonce) && m.PossiblyDead(op.N, op.Nonce) {
 					op.Nonce = g.nonceCt // never replay a nonce whose record is uncertain
 				}
+				if p.Full && r.E%7 == 1 {
+					op.Split = 2 + r.G%3
+				}
 				idx := len(c.Ops)
 				c.Ops = append(c.Ops, op)
 				if v := m.Interest(idx, op, nil, g.predictInterest(op)); v != nil {
@@ -533,6 +554,9 @@ func genCaseFor(p Profile) func(t *rapid.T) Case {
 					op.TokKind, op.TokRef, op.Tok = "", 0, ""
 					tok = nil
 				}
+				if p.Full && r.C%5 == 2 {
+					op.Split = 2 + r.G%3
+				}
 				idx := len(c.Ops)
 				c.Ops = append(c.Ops, op)
 				if v := m.Data(idx, op, nil, tok, g.predictData(op, tok)); v != nil {
@@ -540,6 +564,41 @@ func genCaseFor(p Profile) func(t *rapid.T) Case {
 				}
 				dataOps = append(dataOps, idx)
 				usedNames = append(usedNames, op.N)
+				// motif: the entry just satisfied is used again before the forwarder's sweep
+				// (at once or a few ms later), the new Interest stays unanswered until it
+				// lapses, and its nonce then comes back on another face -- a nonce that must
+				// have been recorded as dead although the entry was once satisfied
+				if target != nil && target.satisfiedAt >= 0 && len(target.in) == 0 && len(target.out) == 0 && r.F2%3 == 0 && m.tainted == "" {
+					if r.G%2 == 0 {
+						pushAdv(int64(1+r.G%90) * ms)
+					}
+					g.nonceCt++
+					again := Op{K: "I", F: r.B%nf + 1, N: target.key.Name, CBP: target.key.CBP, MBF: target.key.MBF,
+						HasNonce: true, Nonce: g.nonceCt, Life: []int64{5, 20, 100, 600}[r.D%4]}
+					if target.key.Hint != "" {
+						again.Hints = []string{target.key.Hint}
+					}
+					emitI := func(o Op) bool {
+						_, hk := m.lookupName(o)
+						if m.Zombie(pitKey{o.N, o.CBP, o.MBF, hk}) || (!m.DefinitelyDead(o.N, o.Nonce) && m.PossiblyDead(o.N, o.Nonce)) {
+							return false
+						}
+						i := len(c.Ops)
+						c.Ops = append(c.Ops, o)
+						if v := m.Interest(i, o, nil, g.predictInterest(o)); v != nil {
+							panic(fmt.Sprintf("generator: the reference rejects its own prediction: %v (op %+v)", v, o))
+						}
+						interestOps = append(interestOps, i)
+						return m.tainted == ""
+					}
+					if emitI(again) && r.D%5 != 0 {
+						pushAdv(again.Life*ms + slack + reapTick + int64(r.E%3)*ms)
+						back := again
+						back.F = (again.F+r.C%(nf-1))%nf + 1
+						g.motifs++
+						emitI(back)
+					}
+				}
 			case k < p.WInterest+p.WData+p.WAdv:
 				d := []int64{1, ms, 10 * ms, 100 * ms, 499 * ms, 600 * ms, 1500 * ms, 5000 * ms, 12000 * ms}[r.A%9]
 				// aim at an edge: suppression interval, in-record expiry, staleness, dead-nonce expiry
